@@ -222,7 +222,7 @@ PROPS = {
         "level": "proof",
         "harness": ["gwrun", "purediff"],
         "stages": [("pure", stage_pure, {"suites": ["ressub", "lcs", "throttle"], "n_quick": 3000, "n_thorough": 60000}),
-                   ("gw", stage_gw, {"profiles": [("malformed", 1500, 10000), ("wild", 1200, 6000), ("churn", 800, 4000)],
+                   ("gw", stage_gw, {"profiles": [("malformed", 1500, 10000), ("wild", 1000, 6000), ("churn", 600, 4000), ("query", 500, 3000)],
                                      "monitor_props": ("C15", "C01", "C02", "C03", "C07")})],
         "rule": "every history runs in its own gateway process: malformed client frames (bad JSON, wrong id/method/params types, ill-formed methods), "
                 "malformed or protocol-violating answers to get/access/call/auth requests, malformed and inapplicable resource events (wrong kind, bad "
